@@ -203,6 +203,13 @@ func (P *Program) Explore(h *HarnessSpec, opts RunOpts) *HarnessResult {
 			for _, c := range pr.Covers {
 				res.Covers[c]++
 			}
+			for _, v := range pr.Soft {
+				key := v.Kind + "|" + v.Label
+				if !violKeys[key] {
+					violKeys[key] = true
+					res.Violations = append(res.Violations, v)
+				}
+			}
 			switch pr.Kind {
 			case "done":
 				res.PathsDone++
